@@ -279,6 +279,7 @@ def run(ctx: Context) -> None:
     # must receive a private copy (alias analysis shared with C02-R7, restricted to the proposed batch)
     from . import c02
     ctx.rule(c02.r7_lent_arrays, ("batch.params",))
+    ctx.rule(c17.identity_keyed_cache)
 
 
 def r1_grid(ctx: Context, base: ClassInfo) -> None:
